@@ -726,6 +726,7 @@ struct Runner
     // final drain: everything committed must come out, in order
     int idle = 0;
     int guard = 0;
+    bool asked_empty = false;
     while (E->violation_tag.empty() && ++guard < 200000)
     {
       if (S.drain_request && !S.drained)
@@ -743,6 +744,30 @@ struct Runner
         uint64_t w0 = S.W;
         wait_for([this, w0] { return S.producer_done || S.drain_request || S.W != w0; });
         continue;
+      }
+      if (S.producer_done && !asked_empty && !S.fifo.empty() && S.fifo.front().committed)
+      {
+        // The question the backend asks before it stops draining or destroys a thread's context: is the queue empty?
+        // The producer has stopped, so after enough polls every one of its stores is visible: "empty" is then wrong.
+        asked_empty = true;
+        int const polls = static_cast<int>(E->force_after) + 40;
+        int said_empty = 0;
+        for (int k = 0; k < polls && E->violation_tag.empty(); ++k)
+        {
+          if (!q->empty())
+          {
+            said_empty = -1;
+            break;
+          }
+          ++said_empty;
+        }
+        if (said_empty == polls)
+        {
+          fail("empty_reported_although_committed_records_are_outstanding",
+               std::to_string(S.fifo.size()) + " committed records are outstanding, the producer has stopped, and empty() returned true " +
+                 std::to_string(polls) + " times in a row");
+          return;
+        }
       }
       if (pass(1000) == 0)
       {
